@@ -404,8 +404,10 @@ def run(ctx):
     for pi in range(nprog):
         special = rng.choice([0.0, 0.0, 0.0, 0.15, 0.4])
         prog = progen.program(rng, special=special)
-        if rng.random() < 0.12:
-            prog = sorted(set(prog + [progen.long_line(rng, rng.choice([5, 300, 65000]), rng.choice([250, 253, 254, 255, 256, 257]))]))
+        if rng.random() < 0.12 or pi < 6:
+            # listing lines at the line-buffer boundary: 254 and 255 characters must load, longer ones cannot re-enter
+            blen = [254, 255, 255, 256, 254, 257][pi] if pi < 6 else rng.choice([250, 253, 254, 255, 256, 257])
+            prog = sorted(set(prog + [progen.long_line(rng, rng.choice([5, 300, 65000]), blen)]))
             prog = [p for i, p in enumerate(prog) if i == 0 or prog[i - 1][0] != p[0]]
         if rng.random() < 0.2:
             # token-valued bytes inside literals followed by zero bytes in number tokens (line-chain scanners)
